@@ -12,6 +12,8 @@ import (
 	"syscall"
 	"time"
 
+	"golang.org/x/text/unicode/norm"
+
 	"github.com/mutagen-io/mutagen/pkg/synchronization/core/ignore"
 )
 
@@ -22,6 +24,16 @@ import (
 // style, yields phantom directories); un = unignored; np = nominal, continue
 // traversal under an ignore mask; dg = ignored only when a directory.
 func verdict(name string, dir bool) (string, bool) {
+	if verdictMode == "mutagen" {
+		// the same codes realised by Mutagen-style patterns (endpointIgnores): no traversal continuation
+		switch {
+		case strings.HasPrefix(name, "ig"), dir && strings.HasPrefix(name, "dg"):
+			return "ign", false
+		case strings.HasPrefix(name, "un"):
+			return "unign", false
+		}
+		return "nom", false
+	}
 	switch {
 	case strings.HasPrefix(name, "ig"):
 		return "ign", false
@@ -39,6 +51,11 @@ func verdict(name string, dir bool) (string, bool) {
 	}
 	return "nom", false
 }
+
+// verdictMode selects the verdict table: "table" (the table-driven ignorer handed to
+// core.Scan directly) or "mutagen" (the real Mutagen-style ignorer of an endpoint
+// configured with endpointIgnores).
+var verdictMode = "table"
 
 // tableIgnorer implements ignore.Ignorer with verdict.
 type tableIgnorer struct{ calls int }
@@ -76,6 +93,7 @@ type gen struct {
 	budget  int
 	serial  int
 	rich    bool // C12: all name/kind classes; C13: fewer oddities, more structure
+	nfd     bool // favour names that are stored decomposed
 	tick    int64
 	mounted []string
 }
@@ -133,6 +151,8 @@ func (g *gen) name(kind string, used map[string]bool) string {
 		k := r.Intn(100)
 		i := r.Intn(6)
 		switch {
+		case g.nfd && kind != "link" && r.Intn(4) == 0:
+			n = []string{"cafe\xcc\x81", "u\xcc\x88ber", "an\xcc\x83o", "e\xcc\x81", "o\xcc\x82k", "A\xcc\x8a"}[i]
 		case kind == "file" && g.rich && k < 6:
 			n = fmt.Sprintf("noread%d", g.nextSerial())
 		case kind == "dir" && g.rich && k < 4:
@@ -517,7 +537,8 @@ func (g *gen) edit(root string) string {
 			var k string
 			for {
 				k = kinds[r.Intn(len(kinds))]
-				if k != e.kind && !(e.kind == "other" && k == "fifo") {
+				// (links never carry decomposed names, see name)
+				if k != e.kind && !(e.kind == "other" && k == "fifo") && !(k == "link" && norm.NFC.String(e.rel) != e.rel) {
 					break
 				}
 			}
